@@ -36,7 +36,7 @@ _REQ = ([f"pk:{m}" for m in MUTS] + [f"sig:{m}" for m in MUTS] +
         ["entry:KeyValidate", "entry:Verify", "entry:AggregateVerify", "entry:FastAggregateVerify",
          "entry:PopVerify", "pairing_calls_checked", "accepted:honest", "pos:last", "pos:first",
          "keyvalidate:True", "keyvalidate:False"] + [f"list:{m}" for m in (
-             "none", "plus_torsion", "cancel_pair", "cancel_triple", "identity_extra", "small_order_pair",
+             "none", "valid_zero_sum", "plus_torsion", "cancel_pair", "cancel_triple", "identity_extra", "small_order_pair",
              "malformed_member", "off_curve_member")] + ["accepted:honest_list"])
 REQUIRED_LABELS = {"quick": _REQ, "thorough": _REQ}
 
@@ -175,7 +175,7 @@ def o_case(ctx, case):
     ctx.sample(case, f"{case.get('pk_mut')}/{case.get('sig_mut')}")
 
 
-LIST_MUTS = ("none", "plus_torsion", "cancel_pair", "cancel_triple", "identity_extra", "small_order_pair",
+LIST_MUTS = ("none", "valid_zero_sum", "plus_torsion", "cancel_pair", "cancel_triple", "identity_extra", "small_order_pair",
              "malformed_member", "off_curve_member")
 
 
@@ -195,7 +195,13 @@ def o_list(ctx, case):
     T = bc.torsion_point("G1", a % 50) if a % 2 else bc.small_point("G1", 11, 1 + a % 3)
     keys = list(pts)
     extra_msgs = []
-    if mut == "plus_torsion":
+    if mut == "valid_zero_sum":
+        # every key individually valid, the list sums to the identity: P1..Pn, -P1..-Pn (or one pair)
+        keys = keys[:1 + a % n]
+        keys = keys + [BLS.neg("G1", k) for k in keys]
+        if a % 3 == 0:
+            keys = keys[::2] + keys[1::2]
+    elif mut == "plus_torsion":
         keys[a % n] = B.g1_add(keys[a % n], T)
     elif mut == "cancel_pair":
         i, j = a % n, (a + 1) % n
@@ -217,6 +223,20 @@ def o_list(ctx, case):
     elif mut == "off_curve_member":
         pks[a % n] = mutate("G1", pks[a % n], "off_curve", a, a % 5, b"")
     ok = mut == "none"
+    if mut == "valid_zero_sum":
+        # FastAggregateVerify must answer False (the aggregate key is the identity) without raising;
+        # AggregateVerify with one message per key and an unrelated aggregate must answer False
+        if suite == "pop":
+            for sig_ in (B.signature_bytes(None), blssig.sign("pop", sks[0], common)):
+                _call(ctx, case, "lists", "FastAggregateVerify", lambda: S.FastAggregateVerify(pks, common, sig_), True,
+                      "the keys sum to the identity")
+        zmsgs = [b"zero-sum-%d" % q for q in range(len(pks))]
+        _call(ctx, case, "lists", "AggregateVerify", lambda: S.AggregateVerify(pks, zmsgs, B.signature_bytes(None)), True,
+              "the identity signature is not the aggregate of these signers")
+        ctx.label(f"list:{mut}")
+        ctx.nontrivial(("l", suite, mut, n, a))
+        ctx.sample(case, f"list:{mut}")
+        return
     if not ok and all(B.valid_pubkey(p) for p in pks):
         raise HarnessError("list mutation produced only valid keys")
     why = f"the key list contains an unsafe member ({mut})"
@@ -379,7 +399,8 @@ def t_lists(ctx, shard, n):
     strat = st.fixed_dictionaries({"suite": sc.s_suite(), "mut": st.sampled_from(LIST_MUTS), "n": st.integers(2, 4),
                                    "a": st.integers(0, 10 ** 6)})
     ex = [{"suite": sc.SUITES[(i + shard) % 3], "mut": m, "n": 2 + i % 2, "a": 3 * i + shard} for i, m in enumerate(LIST_MUTS)]
-    ex += [{"suite": "pop", "mut": m, "n": 2, "a": 5 + shard} for m in ("cancel_pair", "cancel_triple", "small_order_pair")]
+    ex += [{"suite": "pop", "mut": m, "n": 2, "a": 5 + shard} for m in ("cancel_pair", "cancel_triple", "small_order_pair",
+                                                                        "valid_zero_sum")]
     drive(ctx, f"lists{shard}", strat, lambda c: o_list(ctx, c), n, ex if shard < 3 else (), shrink=False)
 
 
